@@ -258,7 +258,18 @@ func runC06(c *core.Ctx, o Options) {
 				continue
 			}
 			nRef++
-			if pr := s.refusalProblems(t, false); len(pr) > 0 {
+			pr := s.refusalProblems(t, false)
+			if refusal != "already-logged-on" {
+				// a Logon refused while waiting for one has already replaced the settings of a session that is not established
+				var keep []string
+				for _, x := range pr {
+					if !strings.HasPrefix(x, "replaces the session's settings") {
+						keep = append(keep, x)
+					}
+				}
+				pr = keep
+			}
+			if len(pr) > 0 {
 				bad = append(bad, refusal+": "+strings.Join(pr, "; ")+" on path: "+traceStr(t))
 				continue
 			}
@@ -462,6 +473,7 @@ func runC06(c *core.Ctx, o Options) {
 	}
 	s.checkEventMapping("M1", map[string]string{"SuccessfulLogged": "EventLogon"})
 	s.checkIsLoggedExact("T6")
+	s.checkRestingSide("T1")
 	c.RuleMin = map[string]int{"M1": 3, "T1": 6, "T2": 4, "T3": 1, "T4": 1, "T5": 2, "T6": 1}
 	c.MinObl = 17
 }
